@@ -189,6 +189,13 @@ _ADD7 = {
  "C16": "Real terminal in ten history-file environments (regular, named pipe, directory, dangling link, link to a pipe, non-UTF-8 bytes, no final newline, read-only, cache directory a file / missing): the first prompt must appear and `step`, `quit` must end the session.",
  "C20": "Pseudo-terminal sessions also in the keyboard-enhancement encodings (CSI press / auto-repeat / release events); Trace_Editor!TBlindWire states that press and repeat are key presses and a release is nothing.",
 }
+_ADD8 = {
+ "C05": "Also: every pair of the lexer's boundary spellings (x-8000, x-8001, x10000, #65535, #65536, 0x-2, r8, an unterminated string ...) through the real lexer against Lexer!Lex.",
+ "C09": "Command-line pairs also WITHOUT --minimal on sources whose long lines hold multi-byte characters around the columns the debugger's tables cut at (break list, assembly, registers, help): stdout and exit status must equal the plain run's.",
+ "C15": "Scenario: `eval rets` at the entry of a routine a real CALL entered (the popped address is determined; no link value is written).",
+}
+for _k, _v in _ADD8.items():
+    _ADD[_k] = (_ADD.get(_k, "") + " " + _v).strip()
 for _k, _v in _ADD7.items():
     _ADD[_k] = (_ADD.get(_k, "") + " " + _v).strip()
 for _k, _v in _ADD5.items():
